@@ -1157,6 +1157,44 @@ def _check_solved(case, it, w, viol, stats, probe, props):
             if rows_k[s].shape != want.shape or np.max(np.abs(rows_k[s] - want)) > 1e-7:
                 viol('C12', 'call-vs-get', '%s() = %s but the entries of t.get() it denotes are %s' % (nm, rows_k[s], want))
                 break
+    # expressions derived from the (possibly event-wise) decision t keep its event structure: each is evaluated through
+    # RSOME and compared, scenario by scenario, with NumPy applied to the values of t()
+    try:
+        rows_t, _ = _call_rows(it.env['t'], S)
+        tvs = [np.asarray(r_, float).reshape(-1) for r_ in rows_t]
+        rg = random.Random(case['seed'] ^ 0x5a17)
+        cvec = np.array([float(rg.randint(1, 4)) * rg.choice([-1, 1]) for _ in range(d)])
+        amat = np.array([[float(rg.randint(1, 3)) * rg.choice([-1, 1]) for _ in range(d)] for _ in range(2)])
+        t_ = it.env['t']
+        derived = [('c @ t', lambda: cvec @ t_, lambda v: cvec @ v), ('t @ c', lambda: t_ @ cvec, lambda v: v @ cvec),
+                   ('A @ t', lambda: amat @ t_, lambda v: amat @ v), ('-t', lambda: -t_, lambda v: -v),
+                   ('2.0 * t', lambda: 2.0 * t_, lambda v: 2.0 * v), ('t * c', lambda: t_ * cvec, lambda v: v * cvec),
+                   ('c * t', lambda: cvec * t_, lambda v: cvec * v), ('t + 1', lambda: t_ + 1.0, lambda v: v + 1.0),
+                   ('1 - t', lambda: 1.0 - t_, lambda v: 1.0 - v), ('t.sum()', lambda: t_.sum(), lambda v: v.sum()),
+                   ('(A @ t).sum()', lambda: (amat @ t_).sum(), lambda v: (amat @ v).sum()),
+                   ('t - t[0]', lambda: t_ - t_[0], lambda v: v - v[0])]
+        rg.shuffle(derived)
+        for nm, mk_, fn in derived[:5]:
+            stats['checks_c12'] += 1
+            try:
+                rows_e, _ = _series_to_rows(mk_()(), S)
+            except Exception as e:
+                viol('C12', 'derived-expression-raises', 'evaluating %s after an optimal solve raised %r' % (nm, e), exc=type(e).__name__)
+                break
+            wants = [np.asarray(fn(v), float).reshape(-1) for v in tvs]
+            bad = [s_ for s_ in range(S) if np.asarray(rows_e[s_], float).reshape(-1).shape != wants[s_].shape or
+                   np.max(np.abs(np.asarray(rows_e[s_], float).reshape(-1) - wants[s_])) > 1e-6 * (1 + np.max(np.abs(wants[s_])))]
+            if bad:
+                s_ = bad[0]
+                flat = all(np.allclose(np.asarray(rows_e[q], float).reshape(-1), np.asarray(rows_e[0], float).reshape(-1)) for q in range(S))
+                if flat and len(ex['pt']) > 1:
+                    viol('C13', 'derived-expression-refinement', '(%s)() returns one value %s for every scenario although t is event-wise '
+                         '(partition %s); at label %r NumPy on t() gives %s' % (nm, rows_e[0], ex['pt'], labels[s_], wants[s_]))
+                viol('C12', 'derived-expression-eval', '(%s)() = %s at label %r, NumPy on the values of t() gives %s'
+                     % (nm, rows_e[s_], labels[s_], wants[s_]))
+                break
+    except Exception as e:
+        viol('C12', 'readback-raises', 't() raised %r after an optimal solve' % (e,), exc=type(e).__name__)
     # convex atoms on decision expressions (multiplier and affine offset), evaluated at the solution
     if case['kind'] == 'combo-ro' or case.get('cvx_dro'):
         from sim.astx import Builder, evalnum
